@@ -3,7 +3,7 @@
 import json, subprocess, os
 V = os.path.dirname(os.path.dirname(os.path.abspath(__file__)))
 ids = [json.loads(l)['id'] for l in open(f'{V}/properties.jsonl')]
-hook_commits = ["d6c2605", "7556b51"]
+hook_commits = ["d6c2605", "7556b51", "cadacea"]
 
 CLAIMED = {
  "C07": dict(engine="E2 corpus (TS-only)", technique="proptest-driven generation of generic definitions (lifetimes, const parameters, concrete(..), defaults over earlier parameters) x 2-4 instantiations; oracle = string equality across instantiations + swc parameter-list/scope analysis + witness search between expanded and concrete declaration",
